@@ -4,27 +4,14 @@
 
 //go:build verif
 
-package controller
+package metrics
 
 // Contracts for the deductive verifier in /verif (govc). Comment-only file: it
 // adds no code. Lines starting with //@ are parsed by govc; see /verif/DESIGN.md.
 
-//@ func WithOwner
-//@   inline
-//@ func (Input).EqualKeys
-//@   inline
-//@
-// Declarations of a controller are read-only descriptions.
-//@ iface Controller.Name
-//@   pure
-//@ iface Controller.Inputs
-//@   pure
-//@ iface Controller.Outputs
-//@   pure
-//@ iface QController.Name
-//@   pure
-//@ iface QController.Settings
-//@   pure
-//@ func (Input).Compare
+// Wrapping a state in the metrics decorator allocates the wrapper and touches nothing else.
+//@ func WrapState
 //@   trusted
 //@   pure
+//@   fresh
+//@   ensures result != nil
